@@ -718,6 +718,11 @@ class ModuleVistor(NodeVisitor):
             return
 
         if obj is not None:
+            try:
+                docstring.encode('utf-8')
+            except UnicodeEncodeError:
+                # Lone surrogates cannot be encoded when the pages are written: show them escaped.
+                docstring = docstring.encode('utf-8', 'backslashreplace').decode('utf-8')
             obj.docstring = docstring
             # TODO: It might be better to not perform docstring parsing until
             #       we have the final docstrings for all objects.
